@@ -67,6 +67,9 @@ func TestExhaustiveWithFaults(t *testing.T) {
 			if len(alpha) > 12 && d > 6 {
 				d = 6
 			}
+			if !run.Thorough() && len(alpha) > 15 {
+				d = 4 // quick tier: wide alphabets one level shallower (thorough goes to 6-7)
+			}
 			rep := reporter(s)
 			sampled := false
 			n := pools.Enumerate(alpha, d, func(h []pools.Op) {
